@@ -346,13 +346,17 @@ def factory1(ctx: Ctx, chk) -> None:
         f = c.find_method("_open_connection")
         if f is None or f.cls is not c:
             raise AnalysisError(f"anchor vanished: {cfq}._open_connection")
+        from ..prov import Canon
+
+        f = ctx.inl(f)  # the opener call may sit in a private module-level helper
+        cnf = Canon(ctx.I, f, "")
         calls = [n for n in ctx.own_nodes(f) if isinstance(n, ast.Call) and opener in callee_names(ctx, f, n)]
         chk.instance(rule)
         if len(calls) != 1:
             raise AnalysisError(f"FACTORY-1: expected one call to {opener} in {f.fq}, found {len(calls)}")
         call = calls[0]
-        got = {kw.arg: norm(kw.value) for kw in call.keywords if kw.arg}
-        pos = [norm(a) for a in call.args]
+        got = {kw.arg: cnf.canon(kw.value) for kw in call.keywords if kw.arg}
+        pos = [cnf.canon(a) for a in call.args]
         names = list(want)
         for i, a in enumerate(pos):
             if i < len(names):
